@@ -245,7 +245,7 @@ pub fn run(run: &mut Run) {
     run.rule = "cases: sprites (biased to indexed colour) with new palette chunks (first index anywhere in u32, up to 600 entries, names, alpha, junk flag bits), legacy 0x0004/0x0011 chunks with 1-6 packets (skip and count bytes over 0..255, count 0 = 256, every 6-bit value), both chunk orders, legacy-only files; negative cases: indexed sprite with pixels but no palette, a cel pixel index absent from the palette, a tileset pixel index absent. Oracle: model decode written from the format (new chunk: ids first..=last; legacy: opaque entries at cumulative skip + k; 6-bit: 0->0, 63->255, strictly increasing, within 2/255 of v*255/63; new wins); negative cases must fail to load, all others must load. non-trivial: legacy chunk with >= 2 packets or a 256-colour packet, first index > 0, a named entry, new+legacy together, or a negative case; distinct by file hash".into();
     let r = check_guarded(six_bit_map_check);
     run.direct(|| json!({"six_bit_map": true}), r);
-    let (lanes, cases) = if run.thorough() { (16, 40000) } else { (16, 2500) };
+    let (lanes, cases) = if run.thorough() { (16, 40000) } else { (16, 5000) };
     run_tapes(run, lanes, cases, 1000, &check);
 }
 
